@@ -5,9 +5,10 @@ real library tree plus the prerequisite flags; a transition rebuilds the tree, c
 transformation and evaluates the step invariants."""
 import collections
 import itertools
+import pickle
 from .. import model, sweep
 from ..runner import Result
-from ..bridge import T, quiet, monitor, canon, all_nodes, raw_leaves, build, CANON_FIELDS, _MISSING
+from ..bridge import T, quiet, monitor, canon, all_nodes, raw_leaves, build, build_any, CANON_FIELDS, _MISSING
 
 from trees import transform
 
@@ -39,8 +40,10 @@ OPS = collections.OrderedDict([
     ('collapse', ('collapse_unary_chains', {})),
     ('uncollapse', ('uncollapse_unary_chains', {})),
 ])
+# (collapsing merges unary chains: every surviving node keeps its place among its sisters, so head marks set
+# before it still count - D13)
 RESTRUCTURING = {'root_attach', 'punctuation_verylow', 'punctuation_symetrify', 'punctuation_symetrify_relc',
-                 'punctuation_root', 'collapse', 'uncollapse', 'add_topnode'}
+                 'punctuation_root', 'uncollapse', 'add_topnode'}
 
 
 def enabled(op, flags, bare_token):
@@ -282,6 +285,9 @@ def plan(tier, seed):
                for i in range(len(model.big_shapes()))]
     chunks.append({'kind': 'cli'})
     chunks.append({'kind': 'clipipe'})
+    n6 = len(sweep.base_shapes(6, tier == 'quick', None))
+    step = 25 if tier == 'quick' else 86
+    chunks += [{'kind': 'punct6', 'lo': lo, 'hi': min(n6, lo + step), 'cont': tier == 'quick'} for lo in range(0, n6, step)]
     return {
         'chunks': chunks,
         'rule': 'initial states: every hierarchy over n tokens (<= u unary insertions) x every word assignment '
@@ -298,7 +304,9 @@ def plan(tier, seed):
                        'unexplored successors (every path to them is an implementation trace)',
         'assumptions': ['driver differential (vt/clipipe.py): four structural pipelines with --params, with and without --split, must write what the named functions give when applied by the harness in the given order',
                         'beyond the bound: BFS (depth %d / %d) also from 8 fixed 5-7-token hierarchies with three blocks or interleaved gaps and from the 11-13-token size probes' % ((3, 2) if tier == 'quick' else (4, 3)),
+                        'punctuation probes: every %s hierarchy over 6 tokens x every choice of 4 punctuation positions x words from {\", (}: root_attach, then each of the three punctuation re-attachments, step invariants on each (single steps, no BFS)' % ('continuous' if tier == 'quick' else ''),
                         'canonical form is a sound state abstraction (DESIGN.md §3.4)',
+                        'live paths: every state is also reached on LIVE objects along the path by which it was first discovered (no rebuild between steps; initial objects rotate over API-built / reversed child lists / export reader / TIGER-XML reader / written once by the export writer) and the step invariants are evaluated on every live transition - one live transition per state, counted in extra.live_transitions',
                         'head marks count as present only if no restructuring happened since (prerequisite reading)',
                         'raising is enabled after boyd_split until binarize/collapse/uncollapse rebuild nodes (they carry no split marks)',
                         'a tree collapsed to a bare token only admits uncollapse'],
@@ -308,19 +316,64 @@ def plan(tier, seed):
 QUICK_SKIP = ('mark_heads_ptb', 'binarize_bare', 'punctuation_symetrify_relc')
 
 
+LIVE_PROVENANCE = (None, 'rev', 'export', 'tiger', 'written')
+
+
+def live_initial(mt, i):
+    """The live object of an initial state: the same model tree as a user may hold it - built through the API
+    (two child-list orders), delivered by the export or TIGER-XML reader (nodes carry the reader's own
+    bookkeeping keys), or written once by the export writer (constituents numbered)."""
+    prov = LIVE_PROVENANCE[i % len(LIVE_PROVENANCE)]
+    try:
+        t = build_any(mt, prov)
+    except Exception:       # a route that cannot carry this model tree (harness-side limitation)
+        prov, t = None, build(mt)
+    return prov, pickle.dumps(t, pickle.HIGHEST_PROTOCOL)
+
+
+def live_step(blob, op, fname, params, flags, hist, prov, res):
+    """The same transition on the LIVE objects of the path by which the state was first reached (never rebuilt
+    from the canonical form, so whatever earlier steps, a reader or a writer left on the nodes is still there).
+    Only the step invariants of the property are evaluated.  Returns the pickled result or None."""
+    lt = pickle.loads(blob)
+    pre = pre_summary(lt)
+    if not enabled(op, flags, pre['bare']):
+        return None
+    res.add_extra('live_transitions')
+    try:
+        from ..livepool import short_watchdog
+        with short_watchdog(10.0):
+            r = getattr(transform, fname)(lt, **params)
+        probs = check_step(pre, op, r)
+    except Exception as e:
+        probs = [('exception', '%s: %s' % (type(e).__name__, e))]
+        r = None
+    if probs:
+        for kind, detail in probs:
+            res.violation(kind, op, {'init': hist[0].to_json(), 'program': list(hist[1:]) + [op], 'live': prov,
+                                     'flags': sorted(flags)},
+                          '%s after program %s applied step by step to the same objects, from %s (provenance %s)'
+                          % (detail, list(hist[1:]) + [op], model.mt_str(hist[0].root, hist[0].toks), prov or 'api'),
+                          '%s on live objects: %s' % (op, kind))
+        return None
+    return pickle.dumps(r, pickle.HIGHEST_PROTOCOL)
+
+
 def explore(inits, depth, res, skip_ops=()):
     seen = set()
     frontier = collections.deque()
-    for mt in inits:
+    for i, mt in enumerate(inits):
         with quiet():
             t = build(mt)
         st = (canon(t), frozenset())
         if st not in seen:
             seen.add(st)
-            frontier.append((st, 0, (mt,)))
+            with quiet():
+                prov, blob = live_initial(mt, i)
+            frontier.append((st, 0, (mt,), prov, blob))
     sample = None
     while frontier:
-        (c, flags), d, hist = frontier.popleft()
+        (c, flags), d, hist, prov, blob = frontier.popleft()
         if d >= depth:
             res.traces += 1
             continue
@@ -354,7 +407,8 @@ def explore(inits, depth, res, skip_ops=()):
             if st not in seen:
                 seen.add(st)
                 new_succ += 1
-                frontier.append((st, d + 1, hist + (op,)))
+                nblob = live_step(blob, op, fname, params, flags, hist, prov, res) if blob is not None else None
+                frontier.append((st, d + 1, hist + (op,), prov, nblob))
                 if d + 1 == depth:
                     sample = {'initial': model.mt_str(hist[0].root, hist[0].toks), 'program': list(hist[1:]) + [op]}
         if not new_succ:
@@ -362,6 +416,53 @@ def explore(inits, depth, res, skip_ops=()):
     res.states += len(seen)
     if sample:
         res.sample(sample)
+
+
+def punct6_cases(chunk):
+    for sh in sweep.base_shapes(6, chunk.get('cont', False), None)[chunk['lo']:chunk['hi']]:
+        root = model.decorate(sh, lambda p, s: LABELS[(sum(p) + len(p)) % len(LABELS)], lambda p, s: 'HD' if p[-1] == 0 else '--')
+        for pos4 in itertools.combinations(range(6), 4):
+            for ws in itertools.product(['"', '('], repeat=4):
+                words = ['w'] * 6
+                for i, w in zip(pos4, ws):
+                    words[i] = w
+                yield model.MT(1, model.mk_tokens(6, words=words, pos=[POS[i % len(POS)] for i in range(6)]), root)
+
+
+def run_punct6(chunk, res):
+    for mt in punct6_cases(chunk):
+        res.evals += 1
+        res.nontrivial += 1
+        t0 = build(mt)
+        pre0 = pre_summary(t0)
+        outcome = []
+        try:
+            ra = transform.root_attach(t0)
+            probs = check_step(pre0, 'root_attach', ra)
+            res.transitions += 1
+        except Exception as e:
+            probs = [('exception', '%s: %s' % (type(e).__name__, e))]
+        prog = ['root_attach']
+        if not probs:
+            c = canon(ra)
+            pre = pre_summary(uncanon(c))
+            for op in ('punctuation_verylow', 'punctuation_symetrify', 'punctuation_symetrify_relc', 'punctuation_root'):
+                fname, params = OPS[op]
+                res.transitions += 1
+                try:
+                    r = getattr(transform, fname)(uncanon(c), **params)
+                    probs = check_step(pre, op, r)
+                    outcome.append(hash(canon(r)) if not probs else None)
+                except Exception as e:
+                    probs = [('exception', '%s: %s' % (type(e).__name__, e))]
+                if probs:
+                    prog = ['root_attach', op]
+                    break
+        for kind, detail in probs:
+            res.violation(kind, prog[-1], {'init': mt.to_json(), 'program': prog, 'flags': []},
+                          '%s after program %s from %s' % (detail, prog, model.mt_str(mt.root, mt.toks)), '%s: %s' % (prog[-1], kind))
+        res.outcome(tuple(outcome))
+    res.states += 1
 
 
 def repr_state(c):
@@ -462,6 +563,27 @@ def check_case(case):
     if 'cli' in case:
         with quiet():
             return check_cli(case['cli'], case['split'])
+    if 'live' in case:
+        with quiet():
+            mt = model.MT.from_json(case['init'])
+            t = build_any(mt, case['live'])
+            flags = frozenset()
+            out = []
+            for op in case['program']:
+                fname, params = OPS[op]
+                pre = pre_summary(t)
+                try:
+                    t = getattr(transform, fname)(t, **params)
+                    probs = check_step(pre, op, t)
+                except Exception as e:
+                    probs = [('exception', '%s: %s' % (type(e).__name__, e))]
+                for kind, detail in probs:
+                    out.append({'kind': kind, 'where': op, 'case': case, 'detail': detail + ' (live objects)',
+                                'what': '%s on live objects: %s' % (op, kind)})
+                if probs:
+                    return out
+                flags = next_flags(op, flags)
+            return out
     with quiet():
         t = uncanon(canon(build(model.MT.from_json(case['init']))))
         flags = frozenset()
@@ -509,6 +631,10 @@ def run_chunk(chunk):
                         res.violation(v['kind'], v['where'], v['case'], v['detail'], v['what'])
         res.states += 1
         res.sample({'cli': 'treetools transform SRC DEST --trans %s [--split 1#_rest]' % ' '.join(CLI_PROGRAMS[0])})
+        return res
+    if chunk.get('kind') == 'punct6':
+        with quiet():
+            run_punct6(chunk, res)
         return res
     with quiet():
         if chunk.get('kind') == 'probe':
